@@ -215,7 +215,11 @@ def execute(plan, prop, out, tr):
                     out.probe("operand:broadcast")
                 elif lay == 4:
                     import copy as _copy
-                    Y = _copy.deepcopy(Y)       # an element restored from a snapshot (deepcopy / pickle / torch.load)
+                    if i % 3 == 0:
+                        import pickle as _pickle
+                        Y = _pickle.loads(_pickle.dumps(Y))
+                    else:
+                        Y = _copy.deepcopy(Y)   # an element restored from a snapshot (deepcopy / pickle / torch.load)
                     if i % 2:
                         X = _copy.deepcopy(X)
                     out.probe("operand:deepcopied")
